@@ -327,7 +327,16 @@ func (p Prop) Coq() string {
 }
 
 func (e EnumEnv) Coq() string {
-	return fmt.Sprintf("(EE %s %s)", vh.BytesTerm(e.Prefix), strList(e.Options))
+	zero := "None"
+	if e.Unspecified != "" {
+		zero = "(Some " + vh.BytesTerm(e.Unspecified) + ")"
+	}
+	return fmt.Sprintf("(EE %s %s %s)", vh.BytesTerm(e.Prefix), zero, strList(e.Options))
+}
+
+// stdZero: the explicit zero option is spelled UNSPECIFIED (with or without the prefix)
+func (e EnumEnv) stdZero() bool {
+	return e.Unspecified == "UNSPECIFIED" || e.Unspecified == e.Prefix+"UNSPECIFIED"
 }
 
 // ---------------------------------------------------------------- j5s text
